@@ -24,7 +24,7 @@ class Cell:
 
     def __init__(self, obs="F2_total", process="NC", fns="ZM-VFNS", nfff=4, pto=1, pto_evol=None, tmc=0,
                  projectile="electron", target="proton", fonllparts=None, nf=None, ren_sv=True, fact_sv=True,
-                 n3lo_var=0, pos_charge=None, kin_y=False, legacy_ptodis=True, kin_x=None):
+                 n3lo_var=0, pos_charge=None, kin_y=False, legacy_ptodis=True, kin_x=None, shared_before=()):
         self.obs = obs
         self.process = process
         self.fns = fns
@@ -43,6 +43,7 @@ class Cell:
         self.kin_y = kin_y
         self.legacy_ptodis = legacy_ptodis
         self.kin_x = kin_x  # override of the requested x (a normal form), default the symbol xB
+        self.shared_before = tuple(shared_before)  # observables requested before cell.obs with the *same* kinematics list object
 
     def label(self):
         return (f"{self.obs}|{self.process}|{self.fns}|NfFF={self.nfff}|PTO={self.pto}|PTOevol={self.pto_evol}|TMC={self.tmc}"
@@ -106,7 +107,7 @@ def observables_card(cell, n_points=1):
         "PolarizationDIS": s("pol"),
         "PropagatorCorrection": s("dprop"),
         "NCPositivityCharge": cell.pos_charge,
-        "observables": {cell.obs: kins},
+        "observables": {**{name: kins for name in cell.shared_before}, cell.obs: kins},
     }
     return o
 
